@@ -44,9 +44,15 @@ def _digests_main(argv):
     import atexit
 
     atexit.register(shutil.rmtree, root, True)
+    label = sub
+    flags = {}
+    for suffix in ("fat", "big", "scale"):
+        if sub.endswith("-" + suffix):
+            sub = sub[: -len(suffix) - 1]
+            flags[suffix] = True
     jobs_list = [
         dict(repo=repo, prop=prop, sub=sub, base_seed=seed, chunk=c, runs=campaign.RUNS_PER_CHUNK, known_keys=[], recheck=0,
-             sweep=(sub == "sweep"), max_records=9 if sub == "sweep" else 24, collect_digests=True)
+             sweep=(sub == "sweep"), max_records=9 if sub == "sweep" else 24, collect_digests=True, label=label, **flags)
         for c in range(c0, c1)
     ]
     out = {}
@@ -67,11 +73,13 @@ def determinism(chunks=6):
     ok = True
     total = 0
     t0 = time.time()
-    for prop, sub in (("C11", "sched"), ("C13", "sweep"), ("C13", "ordinary"), ("C13", "locked"), ("C13", "torn")):
+    for prop, sub in (("C11", "sched"), ("C11", "sched-fat"), ("C11", "sched-big"), ("C11", "sched-scale"), ("C13", "sweep"), ("C13", "ordinary"),
+                      ("C13", "locked"), ("C13", "torn"), ("C13", "torn-fat"), ("C13", "ordinary-scale")):
         ref = None
         for hs, jobs in (("0", 1), ("0", 1), ("12345", 4), ("987", 16), ("random", 16)):
             env = dict(os.environ, PYTHONHASHSEED=hs)
-            p = subprocess.run([PY, os.path.abspath(__file__), "_digests", prop, sub, "7", "0", str(chunks), str(jobs)], env=env, capture_output=True, text=True, timeout=1800)
+            nch = chunks if not sub.endswith(("-big", "-scale")) else max(2, chunks // 4)
+            p = subprocess.run([PY, os.path.abspath(__file__), "_digests", prop, sub, "7", "0", str(nch), str(jobs)], env=env, capture_output=True, text=True, timeout=1800)
             if p.returncode != 0:
                 print("FAIL %s/%s child failed: %s" % (prop, sub, p.stderr[-500:]))
                 return False
